@@ -124,20 +124,26 @@ def expected(built, classes, ci):
     names = set()
     for k in cls.__mro__:
         names |= set(vars(k))
+    decl = {(c["name"], a[0]): a for c in classes for a in c["attrs"]}
     for nm in sorted(names):
         a = inspect.getattr_static(cls, nm)
         if not inspect.isfunction(a):
             continue
         owner = getattr(a, "_ov_owner", None)
+        # action and flag as DECLARED for that method in its class (what the decorators left on the function only where
+        # the case does not say, i.e. never for generated hierarchies)
+        d = decl.get((owner, nm))
         if hasattr(a, "_on_action"):
-            e = out.setdefault(a._on_action, {})
+            action = d[2] if d and d[1] == "on" else a._on_action
+            e = out.setdefault(action, {})
             if "on" in e:
-                amb.add(a._on_action)
-            e["on"] = [owner, nm, bool(a._skip_schema_validation), True]
+                amb.add(action)
+            e["on"] = [owner, nm, bool(d[3]) if d and d[1] == "on" else bool(a._skip_schema_validation), True]
         if hasattr(a, "_after_action"):
-            e = out.setdefault(a._after_action, {})
+            action = d[2] if d and d[1] == "after" else a._after_action
+            e = out.setdefault(action, {})
             if "after" in e:
-                amb.add(a._after_action)
+                amb.add(action)
             e["after"] = [owner, nm, True]
     return out, amb
 
@@ -162,8 +168,57 @@ def centry(e):
     return "(mkEntry %s %s)" % (on, af)
 
 
+def stacked(rep):
+    """one method carrying BOTH decorators, in either stacking order, alone and inherited / next to other routes: it is the
+    handler of its on()-action with the flag on() was given, and the hook of its after()-action.  The expectation comes
+    from the declaration, not from the attributes the decorators leave on the function."""
+    from ocpp.routing import after, on
+    from ocpp.v16 import ChargePoint as CP16
+    from ocpp.v201 import ChargePoint as CP201
+    n = 0
+    for base_cls in (CP16, CP201):
+        for skip in (True, False):
+            for outer in ("after", "on"):
+                for (a_on, a_after) in (("Heartbeat", "Heartbeat"), ("Reset", "Heartbeat")):
+                    for is_async in (False, True):
+                        for inherited in (False, True):
+                            src = "%sdef both(self, **kwargs):\n    return None\n" % ("async " if is_async else "")
+                            loc = {}
+                            exec(src, {}, loc)  # noqa: S102
+                            fn = loc["both"]
+                            if outer == "after":
+                                fn = after(a_after)(on(a_on, skip_schema_validation=skip)(fn))
+                            else:
+                                fn = on(a_on, skip_schema_validation=skip)(after(a_after)(fn))
+
+                            def other(self, **kwargs):
+                                return None
+                            ns = {"both": fn, "other": on("ClearCache", skip_schema_validation=not skip)(other)}
+                            cls = type("Stacked", (base_cls,), ns)
+                            if inherited:
+                                cls = type("StackedChild", (cls,), {})
+                            obj = cls("x", None)
+                            n += 1
+                            decl = {"base": base_cls.__module__, "skip": skip, "outer": outer, "on": a_on, "after": a_after, "async": is_async, "inherited": inherited}
+                            rep.count("stacked:" + json.dumps(decl, sort_keys=True))
+                            rm = obj.route_map
+                            got = {"on": (getattr(rm.get(a_on, {}).get("_on_action"), "__name__", None), bool(rm.get(a_on, {}).get("_skip_schema_validation"))),
+                                   "after": getattr(rm.get(a_after, {}).get("_after_action"), "__name__", None),
+                                   "other": (getattr(rm.get("ClearCache", {}).get("_on_action"), "__name__", None),
+                                             bool(rm.get("ClearCache", {}).get("_skip_schema_validation")))}
+                            want = {"on": ("both", skip), "after": "both", "other": ("other", not skip)}
+                            if got != want:
+                                rep.violation("C15:stacked:%s-outer:skip=%s" % (outer, skip),
+                                              "one method declared @%s over @%s (on(%r, skip_schema_validation=%r), after(%r)%s): the route map has %r, "
+                                              "declared %r" % (outer, "on" if outer == "after" else "after", a_on, skip, a_after,
+                                                               ", inherited" if inherited else "", got, want),
+                                              {"kind": "stacked", "declaration": decl, "route_map": repr(got), "expected": repr(want)})
+    rep.coverage["stacked_decorator_cases"] = n
+
+
 def body_factory(tier, seed):
     def body(rep, support_ok):
+        stacked(rep)
         rng = random.Random(seed * 53 + 9)
         n = 150 if tier == "quick" else 2500
         terms, meta = [], []
@@ -243,6 +298,22 @@ def run(rep, tier, seed):
 
 
 def replay(d):
+    if d.get("kind") == "stacked":
+        class R:
+            hit = []
+            coverage = {}
+
+            def count(self, *_a):
+                pass
+
+            def violation(self, key, what, *_a, **_k):
+                self.hit.append(key)
+                print(what)
+        r = R()
+        stacked(r)
+        key = "C15:stacked:%s-outer:skip=%s" % (d["declaration"]["outer"], d["declaration"]["skip"])
+        print("FAILS" if key in r.hit else "HOLDS")
+        return 1 if key in r.hit else 0
     classes = d["classes"]
     for c in classes:
         c["attrs"] = [tuple(a) for a in c["attrs"]]
